@@ -114,10 +114,14 @@ def check(P, R):
 
     # nothing in the tree is touched unless the pattern led to a node: with a mismatch (and no prefix removal) remove() changes nothing; a prefix
     # removal on a PARTIAL mismatch happens only when the node's key continues the pattern
-    mm_names = {d.name for n in g.nodes for d in rd.gen.get(n, []) if d.kind in ('unpack', 'assign') and d.value is not None
-                and any(isinstance(x, ast.Call) and dotted(x.func) == 'self._match' for x in ast.walk(d.value)) and 'mismatch' in d.name}
+    # by role: the element of the _match() result that is compared with MismatchType.<X>; the flag set to True where the trailing `*` is cut off
+    from_match = {d.name for n in g.nodes for d in rd.gen.get(n, []) if d.kind in ('unpack', 'assign') and d.value is not None
+                  and any(isinstance(x, ast.Call) and dotted(x.func) == 'self._match' for x in ast.walk(d.value))}
+    mm_names = {cp_[0].id for n in g.nodes if n.kind == 'test' for e_ in ast.walk(n.ast) for cp_ in [compare_parts(e_)]
+                if cp_ and isinstance(cp_[0], ast.Name) and cp_[0].id in from_match and 'MismatchType' in src(cp_[2])}
     wild_names = {d.name for n in g.nodes for d in rd.gen.get(n, []) if d.kind == 'assign' and d.value is not None
-                  and any(isinstance(x, ast.Call) and call_attr(x) == 'endswith' for x in ast.walk(d.value))} | {'is_wildcard'}
+                  and (any(isinstance(x, ast.Call) and call_attr(x) == 'endswith' for x in ast.walk(d.value)) or is_const(d.value, True))
+                  and any(is_const(d2.value, False) for n2 in g.nodes for d2 in rd.gen.get(n2, []) if d2.name == d.name)}
     muts_rm = [n for n in g.nodes if n.kind == 'stmt' and ((isinstance(n.ast, ast.Assign) and any(c01.slot_name(t) in ('HOOKS', 'DATA', 'IDX') for t in n.ast.targets))
                                                           or (isinstance(n.ast, ast.Delete) and 'OFFSET' in src(n.ast)))]
     if mm_names and muts_rm:
